@@ -393,7 +393,7 @@ def run_l3(ctx):
                 spec["chunks"] = bytesgen.random_cuts(rng, len(spec["stream"][: spec.get("cut_at")] if spec.get("cut_at") is not None else stream) or 2, 2) if len(stream) > 2 else None
                 spec["delay"] = rng.choice([0, 0.002])
             plan["spec"] = spec
-            entry = ("get", "upload")[i % 2]
+            entry = ("get", "upload", "get", "delete")[i % 4]
             url = f"gemini://127.0.0.1:{peer.port}/x"
             stalling = spec["stage"] == "stall"
             tmo = 1.0 if stalling else TIMEOUT
@@ -410,6 +410,8 @@ def run_l3(ctx):
                     ctx.count("monitor", "l3_client_objects")
                 if entry == "get":
                     return await c.get(url, follow_redirects=False)
+                if entry == "delete":
+                    return await c.delete(url)
                 return await c.upload(url, b"abc", mime_type="text/plain")
 
             t0 = time.monotonic()
